@@ -354,7 +354,11 @@ def run_scenario(sc, strategy, line_level=False, max_steps=6000):
             s.log(ev='peer_drop')
 
     def user():
-        s.block(lambda: passed['n'] >= ncall, None, 'user.wait')
+        if sc.get('user_at') is not None:       # the user shuts the client down at a given time, whatever the callers do
+            ready.wait()
+            s.sleep(sc['user_at'])
+        else:
+            s.block(lambda: passed['n'] >= ncall, None, 'user.wait')
         if sc.get('user_after'):
             s.sleep(sc['user_after'])
         s.yield_('user')
